@@ -739,9 +739,9 @@ func c06GenHistory(r *rng, nTx int) string {
 
 func c06Gen(tier string, seed uint64, out *bufio.Writer) {
 	r := newRng(seed)
-	n := 1500
+	n := 3000
 	if tier == "thorough" {
-		n = 8000
+		n = 20000
 	}
 	for i := 0; i < n; i++ {
 		nTx := 6 + r.intn(20)
